@@ -670,6 +670,26 @@ Definition h_xread (d : db) (parts : list frame) : frame * db :=
       end
   end.
 
+(** the MAXLEN argument of XTRIM in its accepted spellings (None = an error reply) *)
+Definition xtrim_maxlen (parts : list frame) : option Z :=
+  if nparts parts =? 5 then
+    match nth_arg parts 3 with
+    | None => None
+    | Some m =>
+        if beq m (bs "~") || beq m (bs "=") then
+          match nth_arg parts 4 with
+          | Some c => parse_usize c
+          | None => None
+          end
+        else parse_usize m
+    end
+  else if nparts parts =? 4 then
+    match nth_arg parts 3 with
+    | Some a => if beq a (bs "~") || beq a (bs "=") then None else parse_usize a
+    | None => None
+    end
+  else None.
+
 Definition h_xtrim (d : db) (parts : list frame) : frame * db :=
   if nparts parts <? 4 then (r_err, d) else
   match nth_arg parts 1 with
@@ -679,25 +699,7 @@ Definition h_xtrim (d : db) (parts : list frame) : frame * db :=
       | None => (r_err, d)
       | Some strat =>
           if negb (beq (upper strat) (bs "MAXLEN")) then (r_err, d) else
-          let maxlen : option Z :=
-            if nparts parts =? 5 then
-              match nth_arg parts 3 with
-              | None => None
-              | Some m =>
-                  if beq m (bs "~") || beq m (bs "=") then
-                    match nth_arg parts 4 with
-                    | Some c => parse_usize c
-                    | None => None
-                    end
-                  else parse_usize m
-              end
-            else if nparts parts =? 4 then
-              match nth_arg parts 3 with
-              | Some a => if beq a (bs "~") || beq a (bs "=") then None else parse_usize a
-              | None => None
-              end
-            else None in
-          match maxlen with
+          match xtrim_maxlen parts with
           | None => (r_err, d)
           | Some n =>
               match raw_stream d k with
